@@ -108,7 +108,7 @@ func (v *variablesDefaultValueExtractionVisitor) EnterVariableDefinition(ref int
 	}
 
 	isListVariable := v.operation.TypeIsList(v.operation.VariableDefinitions[ref].Type)
-	if isListVariable && len(valueBytes) > 0 && valueBytes[0] != '[' {
+	if isListVariable && len(valueBytes) > 0 && valueBytes[0] != '[' && !bytes.Equal(valueBytes, []byte("null")) {
 		listWraps := v.operation.TypeNumberOfListWraps(v.operation.VariableDefinitions[ref].Type)
 		for range listWraps {
 			valueBytes = append([]byte{'['}, append(valueBytes, ']')...)
